@@ -363,6 +363,28 @@ def roundAmount (dflt : Rounding) (a : Rat) (isDec : Bool) (n : Int) : Rat :=
 def qtyRound (s : QState) (dflt : Rounding) (a : Qty) (isDec : Bool) (n : Int) : Except Err Qty :=
   s.reg.mkQty dflt (some (s.reg.unitCls a.unit)) (roundAmount dflt a.amount isDec n) a.unit
 
+/-- `Cls(text[, unit])` / `Quantity(text[, unit])` once the text is split into
+amount and (optional, already looked-up) symbol unit `su`; `cls = none` is the
+generic factory, `uarg` the explicit unit argument -/
+def parseQuantity (s : QState) (dflt : Rounding) (cls : Option Nat) (amt : Rat)
+    (su uarg : Option Nat) : Except Err Qty :=
+  match su, uarg with
+  | some u, some ua =>
+    if u == ua then s.reg.mkQty dflt cls amt u
+    else
+      -- the quantity in the symbol's unit (of that unit's own type), converted
+      match s.reg.mkQty dflt (some (s.reg.unitCls u)) amt u with
+      | .error e => .error e
+      | .ok q0 => s.convert dflt q0 ua
+  | some u, none => s.reg.mkQty dflt cls amt u
+  | none, some ua => s.reg.mkQty dflt cls amt ua
+  | none, none =>
+    match cls with
+    | none => .error .QuantityError
+    | some cc => match (s.reg.cls cc).refUnit with
+      | some ru => s.reg.mkQty dflt cls amt ru
+      | none => .error .QuantityError
+
 /-- operators between a quantity and a plain number (either order): `+`, `-`
 and the order comparisons find no implementation on either side (both return
 `NotImplemented`) → TypeError; `==` is False, `!=` True. -/
